@@ -322,6 +322,31 @@ def contract_part(ck: Check, cm, polyH, clmo):
             ck.notes.append(f"{label}: {st.shape[0]} points for 2 iterations, predecessor relation not recoverable")
         if len(ck.cov["samples"]) < 6:
             ck.sample({"map": label, "first_state": st[0].tolist(), "first_point": pts[0].tolist(), "labels": list(res.labels)})
+    # every seeding strategy: seeds must be lifted onto the section and the energy level
+    strategies = [("axis_aligned", None)] if ck.quick else [("single", "q2"), ("axis_aligned", None), ("level_sets", None), ("radial", None), ("random", None)]
+    for strat, axis in strategies:
+        for sc in (("q3",) if ck.quick else ("q3", "p2")):
+            pm = CenterManifoldMap(cm, h0)
+            try:
+                cfg = pm.config
+                pm.config = cfg.merge(seed_strategy=strat, seed_axis=axis)
+                res = pm.compute(section_coord=sc, options=make_opts(n_workers=2, n_iter=1, n_seeds=4, dt=1e-2, order=4, max_steps=4000))
+            except Exception as ex:
+                ck.violation(f"cm-map|strategy-raises:{strat}", f"strategy {strat} section {sc}: {ex!r}"[:300], {"strategy": strat, "section": sc})
+                continue
+            st = np.asarray(res.states, dtype=float)
+            pts = np.asarray(res.points, dtype=float)
+            label = f"strategy={strat}|section={sc}"
+            ck.count(("strategy", label), True)
+            t = cs.trace(label, {"section_coordinate": -100, "points_are_plane_projection": -100, "energy_level": -40},
+                         {"section": sc, "strategy": strat})
+            if st.shape[0] == 0:
+                cs.obs(t, "section_coordinate", 1.0)
+                continue
+            cs.obs(t, "section_coordinate", float(np.max(np.abs(st[:, IDX[sc]]))))
+            proj = st[:, [IDX[PLANE[sc][0]], IDX[PLANE[sc][1]]]]
+            cs.obs(t, "points_are_plane_projection", float(np.max(np.abs(pts - proj))) if pts.shape == proj.shape else 1.0)
+            cs.obs(t, "energy_level", max(abs(c09.hcm(cm, polyH, clmo, p) - h0) for p in st))
     cs.decide(key_fn=lambda t, n: (f"map.points|not-plane-projection-of-states:{t['data']['section']}" if n == "points_are_plane_projection"
                                    else f"cm-map|{n}"))
     cs.selftest()
